@@ -63,6 +63,22 @@ def check_concat(mido, seq, acc):
                       f'parse_all({hexs(data)}) raised {e!r}',
                       {'kind': 'concat', 'bytes': data})
         return
+    try:
+        got_it = sigs(mido.parse_all(iter(data)))
+        got_gen = sigs(mido.parse_all(b for b in data))
+    except Exception as e:
+        acc.violation(f'concat-iterator-raises/{type(e).__name__}',
+                      f'parse_all(iterator over {hexs(data)}) raised {e!r}',
+                      {'kind': 'concat', 'bytes': data,
+                       'expected': [m.bytes() for m in seq]})
+        return
+    if got_it != sigs(seq) or got_gen != sigs(seq):
+        acc.violation('concat/iterator-input',
+                      f'parse_all(iterator / generator over {hexs(data)}) = '
+                      f'{got_it} / {got_gen}',
+                      {'kind': 'concat', 'bytes': data,
+                       'expected': [m.bytes() for m in seq]})
+        return
     if got != sigs(seq):
         acc.violation('concat/' + '+'.join(m.type for m in seq)[:60],
                       f'parse_all({hexs(data)}) = {got}, expected {list(seq)!r}',
